@@ -200,6 +200,7 @@ def handleWObs (acc : Acc) (h : WHist) (kv : KV) (_line : String) : Acc × WHist
       let acc :=
         match World.applyTx h.last.w env sender funds tx with
         | .ok mw =>
+          let acc := acc.cover s!"{kind}:ok"
           if !ok then
             (slicesOfImplErr kind).foldl (fun a p => a.report "DISAGREE" p s!"{kind}:accept(model-ok,impl-err:{tkv.str "err"})" tline) acc
           else
@@ -208,6 +209,7 @@ def handleWObs (acc : Acc) (h : WHist) (kv : KV) (_line : String) : Acc × WHist
             tags.foldl (fun a tag =>
               (slicesOf kind tag).foldl (fun a p => a.report "DISAGREE" p s!"{kind}:state:{tag}" tline) a) acc
         | .error e =>
+          let acc := acc.cover s!"{kind}:{errTag e}"
           if ok then
             (slicesOfModelErr kind e).foldl (fun a p => a.report "DISAGREE" p s!"{kind}:accept(model-err:{errTag e},impl-ok)" tline) acc
           else acc
